@@ -157,6 +157,7 @@ type Rig struct {
 	cancel context.CancelFunc
 	done   chan struct{}
 	wg     sync.WaitGroup
+	mid    *Action // armed: inject this inbound message when the next outbound message passes the outgoing handlers
 }
 
 func (r *Rig) ms() int64 { return time.Since(r.start).Milliseconds() }
@@ -231,6 +232,20 @@ func NewRig(cfg Cfg) (*Rig, error) {
 		r.mu.Unlock()
 		return true
 	})
+	// application-side outgoing handler: lets the peer's next message arrive while a local call is inside the send path
+	r.H.HandleOutgoing(simplefixgo.AllMsgTypes, func(m simplefixgo.SendingMessage) bool {
+		r.mu.Lock()
+		mid := r.mid
+		r.mid = nil
+		r.mu.Unlock()
+		if mid != nil {
+			r.H.ServeIncoming(Inbound(mid, peerID, ourID, ts(time.Now())))
+			for i := 0; i < 400; i++ { // scheduler yields only (no virtual-time sleep while the send lock is held)
+				runtime.Gosched()
+			}
+		}
+		return true
+	})
 	r.wg.Add(2)
 	go func() { defer r.wg.Done(); _ = r.H.Run() }()
 	go func() { // the connection's writer loop, replaced by a collector
@@ -277,6 +292,13 @@ func ts(t time.Time) string { return t.UTC().Format("20060102-15:04:05.000") }
 
 // Do executes one action and waits for quiescence.
 func (r *Rig) Do(a *Action) (callErr bool) {
+	if a.Mid != "" && (a.A == "send" || a.A == "llogout") {
+		m := &Action{A: a.Mid, Seq: a.MidSeq, Hb: a.Hb, Enc: "0", Cred: true, ID: []int{77}}
+		m.norm()
+		r.mu.Lock()
+		r.mid = m
+		r.mu.Unlock()
+	}
 	switch a.A {
 	case "run":
 		callErr = r.S.Run() != nil
